@@ -34,7 +34,8 @@ def normal_runs(progs, work, maxthreads=400, timeout=600):
     exceeds the bound (non-terminating in the reference) are absent."""
     if not progs:
         return {}, {"distinct": 0, "generated": 0}
-    chunks = [progs[i::vlib.NCPU] for i in range(vlib.NCPU)]
+    nch = max(1, min(6, len(progs) // 30 + 1))
+    chunks = [progs[i::nch] for i in range(nch)]
     chunks = [c for c in chunks if c]
     res, stats = {}, {"distinct": 0, "generated": 0, "errors": []}
 
@@ -44,7 +45,7 @@ def normal_runs(progs, work, maxthreads=400, timeout=600):
         json.dump(_corpus(chunks[k]), open(cpath, "w"))
         if os.path.exists(opath):
             os.remove(opath)
-        cfg = SAX_CFG % {"sched": "norm", "maxthreads": maxthreads, "emit": "TRUE", "invs": "EmitDone CellsWellFormed"}
+        cfg = SAX_CFG % {"sched": "det", "maxthreads": maxthreads, "emit": "TRUE", "invs": "EmitDone CellsWellFormed"}
         r = vlib.tlc("Sax", cfg, env={"VERIF_CORPUS": cpath, "VERIF_OUT": opath}, workers=1, timeout=timeout, work=work)
         got = {}
         if os.path.exists(opath):
